@@ -1,3 +1,3 @@
 From Coq Require Import ExtrOcamlBasic.
-From ChibiV Require Import Common.ExtractBase C11.Model.
-Extraction "model.ml" ext_base init step enabled run scheduler cur front back paused th mx started.
+From ChibiV Require Import Common.ExtractBase C11.Model C11.Prog.
+Extraction "model.ml" ext_base init step enabled Model.run scheduler cur front back paused th mx started prog_outcome prog_properly_locked canonical.
